@@ -137,7 +137,7 @@ def m_slice_len(ex, st, a, dst, callee):
     return [(bv(len(buf_of(ex, st, a[0]).items), 64), [], None)]
 
 
-T = r"(?:\(.*\)|Vec<u8>|PageId|PathEntry|usize)"
+T = r"(?:\(.*\)|Vec<u8>|PageId|PathEntry|usize|u64|EdgeRecord|nervusdb_api::EdgeKey)"
 VEC_MODELS = [
     (r"^<std::ops::Range<usize> as Iterator>::map::<", m_range_map),
     (r"^<std::iter::Map<std::ops::Range<usize>, \{closure@[^}]*\}> as Iterator>::collect::<Vec<", m_map_collect),
